@@ -116,7 +116,8 @@ def main():
             assert rc == 0, out
             for c in checks:
                 t0 = time.time()
-                noproof = "" if os.path.exists(os.path.join(VERIF, "coq", "Properties", c + ".v")) else " --no-proof"
+                # --fast: skip the proof step (nothing in coq/ changes with a seeded patch; evidence then goes to .cache/dev-evidence)
+                noproof = " --no-proof" if ("--fast" in sys.argv or not os.path.exists(os.path.join(VERIF, "coq", "Properties", c + ".v"))) else ""
                 rc, out = sh("./check %s --tier quick%s" % (c, noproof), cwd=VERIF, timeout=3000)
                 lines = [l for l in out.splitlines() if l.startswith(("VIOLATION", "KNOWN-FINDING"))]
                 what = ""
